@@ -1241,3 +1241,22 @@ Proof.
     apply d_remove_node_is_source. exact I.
   - intros d1 n I. destruct (has n (h_node (ts d1))); [apply DInv_remove_node; exact I|exact I].
 Qed.
+
+(* ---------- add_nodes_from ---------- *)
+Theorem d_add_nodes_from_is_source items a d : DInv d ->
+  run_dnode_attr_items dsrc_add_nodes_from_item items a d = d_add_nodes_from items a d.
+Proof.
+  unfold run_dnode_attr_items, d_add_nodes_from, dsrc_add_nodes_from_item. apply (dloop_ext_inv DInv).
+  - intros d1 [n od] (I1 & I2 & Ag). cbn [fst snd]. set (nd := match od with None => a | Some x => aupdate a x end).
+    destruct I1 as (_ & (Kna & _) & _). unfold d_add_node_body.
+    rewrite dexec_list_cons, dexec_if. cbn [dbeval]. dhgs.
+    destruct (has n (h_node (ts d1))) eqn:Hn; cbn [negb].
+    + rewrite dexec_list_nil, dexec_list_cons, dexec_attrupdate. dhgs.
+      assert (Ha : has n (h_nattr (ts d1)) = true) by (apply has_In; rewrite Kna; apply has_In; exact Hn).
+      unfold has in Ha. destruct (get n (h_nattr (ts d1))) as [x|] eqn:G; [|discriminate Ha].
+      rewrite dexec_list_nil. unfold dok, nattr_update, geta. rewrite G. reflexivity.
+    + destruct (is_none n) eqn:Nn; [repeat dstep; rewrite Nn; reflexivity|].
+      repeat dstep. rewrite get_set_same. rewrite ?dexec_list_nil.
+      unfold dok, nattr_update, ensure_node, geta. rewrite (agree_has_node d1 n Ag), Hn. dhgs. rewrite get_set_same. reflexivity.
+  - intros d1 [n od] I. apply DInv_add_node_body. exact I.
+Qed.
